@@ -419,7 +419,7 @@ def outcomes(gm, tmp, tag, with_module, points):
             stage = "addresses"
             rows = pipeline.reorder_rows(None, eqs, [e[0] for e in gm.eqs], gm)
             layout = [int(i) for nm, _, _ in gm.vars for i in np.atleast_1d(np.arange(y0.array.shape[0])[y0.a.v[nm]])]
-            out[backend] = ("values", vals, rows, layout)
+            out[backend] = ("values", vals, rows, layout, [int(len(np.atleast_1d(eqs.a.v[e[0]]))) for e in gm.eqs])
         except Exception as ex:  # noqa — a loud failure at any stage is an allowed outcome
             out[backend] = ("error", stage, ex)
     return out
@@ -449,6 +449,29 @@ def numpy_reference(gm, t, y, yprev):
                 raise ValueError("ode shape")
             parts.append(np.broadcast_to(v, (max(n, tgt),)).astype(float))
     return np.concatenate(parts), margins
+
+
+def collapsed(gm, real_sizes, npref):
+    """an equation that the code sees as a scalar while it was written with vector operands, and whose documented value is the
+    same constant in every element (no element-wise dependence left): the cancellation class"""
+    if isinstance(npref, Exception):
+        return False
+    ref, _ = npref
+    off = 0
+    found = False
+    for (name, kind, a, dv), rs in zip(gm.eqs, real_sizes):
+        try:
+            n = ast_size(gm, a)
+        except Exception:  # noqa
+            return False
+        block = ref[off:off + n]
+        off += n
+        if rs != n:
+            if rs == 1 and n > 1 and np.all(block == block[0]):
+                found = True
+            else:
+                return False
+    return found
 
 
 def classes(gm):
@@ -548,7 +571,7 @@ def run(rep, tier, seed):
                 if keyc not in counted:
                     counted.add(keyc)
                     stats["outcomes"]["values"] = stats["outcomes"].get("values", 0) + 1
-                _, vals, rows, layout = o
+                _, vals, rows, layout, real_sizes = o
                 if layout != list(range(len(layout))):
                     stats["layout_not_declaration_order"] = stats.get("layout_not_declaration_order", 0) + 1
                     continue
@@ -559,6 +582,13 @@ def run(rep, tier, seed):
                                         f"({ans}; {family})"))
                     continue
                 if which == "J" and near_kink:
+                    continue
+                if len(rows) != ref.shape[0] and collapsed(gm, real_sizes, slot["npref"]):
+                    # sympy cancelled a vector sub-expression (z - z -> 0) at construction: the equation became a scalar constant.
+                    # Same class as in C01 / C02: not a meaningful model, skipped and counted
+                    if keyc + ("c",) not in counted:
+                        counted.add(keyc + ("c",))
+                        stats["collapsed_by_sympy"] = stats.get("collapsed_by_sympy", 0) + 1
                     continue
                 if sorted(rows) != list(range(len(rows))) or len(rows) != ref.shape[0] or np.asarray(got).shape[0] != ref.shape[0]:
                     fails.append((case, f"{backend}: {which} has {np.asarray(got).shape} elements / rows at addresses {rows}, the declared model has {ref.shape}"))
